@@ -13,6 +13,7 @@ namespace A816
 inductive Node
   | label (name : String)
   | symbol (name : String) (e : PExpr)
+  | argSymbol (name : String) (e : PExpr)           -- `ArgumentNode`: a deferred macro argument, evaluated in the enclosing scope
   | symbolConst (name : String) (v : Int)          -- the loop variable of `.for` (a NUMBER term built from `str(k)`)
   | binary (content : List Nat) (symbolBase : String)
   | data (w : Nat) (e : PExpr) (info : Tok)         -- ByteNode / WordNode / LongNode / PointerNode (w = 1, 2, 3, 3)
@@ -70,6 +71,14 @@ def pcAfter (env : Env) (n : Node) (r : Resolver) (pc : Address) : Except Err (R
     match evalP env r e with
     | .error er => .error er
     | .ok v => .ok (r.addSymbol name v, pc)
+  | .argSymbol name e =>
+    -- `ArgumentNode.pc_after`: evaluate where the macro is applied (the parent of the application's scope), bind here
+    match r.cur.parent with
+    | none => .error .assertion
+    | some par =>
+      match evalP env { r with current := par } e with
+      | .error er => .error er
+      | .ok v => .ok (r.addSymbol name v, pc)
   | .symbolConst name v => .ok (r.addSymbol name v, pc)
   | .binary content base =>
     match addrAdd pc content.length with
@@ -159,6 +168,7 @@ def emitNode (env : Env) (n : Node) (r : Resolver) : Except Err (Resolver × Lis
   match n with
   | .label name => (checkLabel r name r.reloc).map fun _ => (r, [])
   | .symbol _ _ => .ok (r, [])
+  | .argSymbol _ _ => .ok (r, [])
   | .symbolConst _ _ => .ok (r, [])
   | .binary content base => (checkLabel r base r.reloc).map fun _ => (r, content)
   | .data w e info =>
@@ -212,7 +222,7 @@ def emitNode (env : Env) (n : Node) (r : Resolver) : Except Err (Resolver × Lis
   | .text s tbl info => (textBytes s tbl info).map fun bs => (r, bs)
   | .ascii s => .ok (r, asciiBytes s)
 
-def Node.isSymbol : Node → Bool | .symbol _ _ => true | .symbolConst _ _ => true | _ => false
+def Node.isSymbol : Node → Bool | .symbol _ _ => true | .argSymbol _ _ => true | .symbolConst _ _ => true | _ => false
 def Node.isLabelOrBinary : Node → Bool | .label _ => true | .binary _ _ => true | _ => false
 def Node.isCodePos : Node → Bool | .codePos _ _ => true | _ => false
 
